@@ -483,3 +483,7 @@ Proof.
   pose proof (step_inv s o I Hok) as H. unfold run. cbn [run_with]. unfold next in *.
   destruct (step s o) as [[s' x] | [s' e] | t]; [apply IH; assumption|apply IH; assumption|contradiction].
 Qed.
+
+Theorem run_inv_init max manual h : 1 <= max -> max <= 65535 -> contract (init max manual) h = true ->
+  exists s, run (init max manual) h = Some s /\ Inv s.
+Proof. intros H1 H2. apply run_inv. apply inv_init; assumption. Qed.
